@@ -33,7 +33,7 @@ pub fn plan_for(prop: &str, tier: Tier, seed: u64, verif_dir: &str) -> Option<Pl
 			property: "C01".into(),
 			tier,
 			seed,
-			jobs: vec![job("lnsim", "offchain", n(1500, 40000))],
+			jobs: vec![job("lnsim", "offchain", n(12000, 80000))],
 			level: "exploration".into(),
 			rule: "one evaluation = one seeded simulated run of profile `offchain` (2-3 real nodes, 1-4 channels, random interleaving of individually delivered messages, sends at boundary amounts, claims, fails, fee updates, disconnects/reconnects, optional cooperative close) followed by a settle phase; non-trivial = at least one payment reached a terminal event or one fault fired; distinct = distinct hash of the executed (action kind, actor) sequence".into(),
 			assumptions: t_assumptions.clone(),
